@@ -43,7 +43,8 @@ def MacDiffers (P : Prims) (side : Side) (ak c : Bytes) : Prop :=
 theorem foreign_key_rejected (P : Prims) (side : Side) (ak keyId c : Bytes) (h24 : 24 ≤ c.length)
     (hk : c.take 8 ≠ keyId) : decrypt P side ak keyId c = .error .keyId := by
   unfold decrypt decryptMessage
-  rw [show Facts.C04.checksKeyID = true from rfl]
+  rw [show Facts.C04.checksKeyID = true from rfl, show Facts.C04.frameKeyIdLen = 8 from rfl,
+    show Facts.C04.frameMsgKeyLen = 16 from rfl]
   have h1 : ¬ c.length < 8 + 16 := by omega
   have h2 : (keyId != c.take 8) = true := by simp; exact fun e => hk e.symm
   simp only [h1, if_false, Bool.true_and, h2, if_true]
@@ -58,6 +59,7 @@ theorem keyid_tamper_rejected (P : Prims) (side : Side) (ak keyId c c' : Bytes) 
 theorem truncated_envelope_rejected (P : Prims) (side : Side) (ak keyId c : Bytes) (h : c.length < 24) :
     decrypt P side ak keyId c = .error .eof := by
   unfold decrypt
+  rw [show Facts.C04.frameKeyIdLen = 8 from rfl, show Facts.C04.frameMsgKeyLen = 16 from rfl]
   have : c.length < 8 + 16 := by omega
   simp only [this, if_true]
 
